@@ -41,9 +41,16 @@ pub fn world_by_name(name: &str) -> (World, Store) {
         "B" => vec![spec_b6(), spec_bf(100, 5000)],
         "C" => vec![spec_bf(10000, 7), spec_bt()],
         "D" => vec![spec_b9(), spec_bf(1, 1)],
+        // world A in a group for which the global fee admin switched the program fees off (the global fee state
+        // still carries a non-zero program fee)
+        "G" => vec![spec_b6(), spec_b9()],
         _ => panic!("unknown world {name}"),
     };
-    build_world(&WorldSpec::new(&format!("H{name}"), banks, &["u0", "u1", "seeder", "u3"]))
+    let mut spec = WorldSpec::new(&format!("H{name}"), banks, &["u0", "u1", "seeder", "u3"]);
+    if name == "G" {
+        spec.program_fees_enabled = false;
+    }
+    build_world(&spec)
 }
 
 pub fn whole(w: &World, b: usize, n: u64) -> u64 {
@@ -204,6 +211,25 @@ pub fn standard_roots(w: &World, s0: &Store, with_forged: bool) -> Vec<(String, 
         };
         mint_to(&mut r3i, &w.mint_auth, &w.banks[1].mint, &w.banks[1].iv, w.banks[1].t22, bad / 3 + 1);
         roots.push(("R3i".to_string(), mk(r3i, false)));
+        if with_forged {
+            // R3w: the same account owes one and a half times everything that was deposited in bank 1 (forged debt):
+            // the bankruptcy that is one step away wipes the bank out (deposit share value 0, killed)
+            let mut r3w = r3.clone();
+            let bk = bank(&r3w, &w.banks[1].key);
+            let deposits = I80F48::from(bk.total_asset_shares) * I80F48::from(bk.asset_share_value);
+            let want_shares = deposits * I80F48::from_num(1.5) / I80F48::from(bk.liability_share_value);
+            let mut added = I80F48::ZERO;
+            edit_account(&mut r3w, &w.users[0].account, |a| {
+                if let Some(bal) = a.lending_account.balances.iter_mut().find(|x| x.active != 0 && x.bank_pk == w.banks[1].key) {
+                    added = want_shares - I80F48::from(bal.liability_shares);
+                    bal.liability_shares = want_shares.into();
+                }
+            });
+            if added > I80F48::ZERO {
+                edit_bank(&mut r3w, &w.banks[1].key, |b| b.total_liability_shares = (I80F48::from(b.total_liability_shares) + added).into());
+                roots.push(("R3w".to_string(), mk(r3w, true)));
+            }
+        }
     }
 
     // R6: bank 0 accrues (u3 borrows it against bank 1) while u1 holds an *empty but active* balance
